@@ -262,13 +262,13 @@ let agent_suite () =
       let n = String.length line in
       if n > 2 && line.[0] = 'H' then begin
         match split_sp line with
-        | [_; rel; _rto; rm; rc; _gran; limit; mech; fp] ->
+        | [_; rel; rto; rm; rc; gran; limit; mech; fp] ->
           let cf = { reliable = rel = "1"; cf_rm = nn rm; cf_rc = nn rc; limit = nn limit; use_fp = fp = "1" } in
           let m = match mech with
             | "0" -> MNone | "1" -> MST None | "2" -> MST (Some IMI) | "3" -> MST (Some ISHA)
             | _ -> MLT { lt_st = First; lt_pr = None } in
           cl := Some (init cf m);
-          let cc = { cc_mech = nn mech; cc_fp = fp = "1"; cc_reliable = rel = "1" } in
+          let cc = { cc_mech = nn mech; cc_fp = fp = "1"; cc_reliable = rel = "1"; cc_rto = nn rto; cc_gran = nn gran } in
           mcf := Some ({ mc_reliable = rel = "1"; mc_rm = nn rm; mc_rc = nn rc; mc_limit = nn limit }, cc);
           ms := Some (mall0 cc);
           (* the snapshot of a fresh client *)
@@ -312,10 +312,196 @@ let agent_suite () =
     done
   with End_of_file -> ())
 
+(* ---------------------------------------------------------------- suite: wire *)
+let render_wres = function
+  | WOk (size, ps) -> Printf.sprintf "OK %d %s" (int_of_n size) (if ps = [] then "-" else String.concat "," (List.map (fun p -> string_of_int (int_of_n p)) ps))
+  | WErr -> "ERR" | WPanic -> "PANIC" | WUnmodelled -> "UNMODELLED"
+let parse_ores s =
+  match split_sp s with
+  | ["OK"; size; "-"] -> OOkR (nn size, [])
+  | ["OK"; size; ps] -> OOkR (nn size, List.map nn (String.split_on_char ',' ps))
+  | ["ERR"] -> OErrR
+  | _ -> OBad
+let opts_of v u n = { o_validate = v; o_unknown = u; o_not_ignore = n }
+let wire_suite () =
+  let idx = ref 0 in
+  let pending = ref None in
+  let last = ref None in
+  (try
+    while true do
+      let line = input_line stdin in
+      let n = String.length line in
+      if n > 2 && line.[0] = 'C' then begin
+        match split_sp line with
+        | [_; "F"; kind; _key; _buf] -> pending := Some (`Fault kind)
+        | [_; key; buf] -> pending := Some (`Case (bytes_of_hex key, bytes_of_hex buf))
+        | _ -> failwith ("bad record: " ^ line)
+      end else if n >= 2 && line.[0] = 'I' then begin
+        let i = !idx in incr idx;
+        let body = String.sub line 2 (n - 2) in
+        (match !pending with
+         | Some (`Fault kind) ->
+           emit (Printf.sprintf "M %d -" i);
+           emit (Printf.sprintf "S %d %d %s -" i (if body = "-" then 1 else 0) (if kind = "FP" then "C10fault" else "C04fault"))
+         | Some (`Case (key, b)) ->
+           let cfgs = List.concat_map (fun k -> List.concat_map (fun v -> List.concat_map (fun u -> List.map (fun nn_ -> (k, v, u, nn_)) [false; true]) [false; true]) [false; true]) [false; true] in
+           let rs = decode dec_ok_basic None b ::
+                    List.map (fun (k, v, u, nn_) -> decode dec_ok_basic (Some { w_key = (if k then Some key else None); w_opts = opts_of v u nn_ }) b) cfgs in
+           if List.exists (fun r -> r = WUnmodelled) rs then emit (Printf.sprintf "M %d UNMODELLED" i)
+           else emit (Printf.sprintf "M %d %s" i (String.concat "|" (List.map render_wres rs)));
+           let obs = List.map parse_ores (String.split_on_char '|' body) in
+           if List.length obs = 17 then begin
+             let arr = Array.of_list obs in
+             let o = { o_none = arr.(0);
+                       o_cfg = (fun k v u nn_ -> arr.(1 + (if k then 8 else 0) + (if v then 4 else 0) + (if u then 2 else 0) + (if nn_ then 1 else 0))) } in
+             emit (Printf.sprintf "S %d %d C18 -" i (if monitor_C18 o then 1 else 0));
+             emit (Printf.sprintf "S %d %d C03dec -" i (if monitor_C03dec b o then 1 else 0))
+           end else begin
+             emit (Printf.sprintf "S %d 0 C18 unparsable" i); emit (Printf.sprintf "S %d 0 C03dec unparsable" i)
+           end;
+           last := Some (i, key, b)
+         | None -> failwith "I without C");
+        pending := None
+      end else if n >= 1 && line.[0] = 'J' then begin
+        match !last with
+        | Some (i, key, b) ->
+          let facts = List.filter_map (fun t -> match String.split_on_char '=' t with [a; v] -> Some (a, v) | _ -> None) (split_sp (if n > 2 then String.sub line 2 (n - 2) else "")) in
+          let get k = try List.assoc k facts with Not_found -> "-" in
+          let cmp name ty fact =
+            let v = match get fact with
+              | "-" -> true
+              | "P" -> false
+              | x -> (match rfc_verdict ty key b with Some m -> m = (x = "1") | None -> false) in
+            emit (Printf.sprintf "S %d %d %s -" i (if v then 1 else 0) name) in
+          cmp "C04acc" (n_of_int 8) "mi"; cmp "C04acc" (n_of_int 28) "sha"; cmp "C10acc" (n_of_int 32808) "fp";
+          emit (Printf.sprintf "S %d %d C18ud -" i (if get "ud" = "1" then 1 else 0));
+          emit (Printf.sprintf "S %d %d C03prefix -" i (if get "prefix" = "1" then 1 else 0));
+          last := None
+        | None -> ()
+      end
+    done
+  with End_of_file -> ())
+
+(* ---------------------------------------------------------------- suite: attrval *)
+(* u64 values do not fit an OCaml int: 16 hex digits <-> N through two 32-bit halves *)
+let av_two32 = N.mul (n_of_int 65536) (n_of_int 65536)
+let av_n_of_hex16 s =
+  let hi = int_of_string ("0x" ^ String.sub s 0 8) and lo = int_of_string ("0x" ^ String.sub s 8 8) in
+  N.add (N.mul (n_of_int hi) av_two32) (n_of_int lo)
+let av_hex16_of_n x = Printf.sprintf "%08x%08x" (int_of_n (N.div x av_two32)) (int_of_n (N.modulo x av_two32))
+
+let av_tok_opt = function None -> "n" | Some b -> "s" ^ hex_of_bytes b
+let av_parse_opt s =
+  if s = "n" then None else Some (bytes_of_hex (String.sub s 1 (String.length s - 1)))
+let av_list f l = if l = [] then "-" else String.concat "," (List.map f l)
+let av_unlist f s = if s = "-" then [] else List.map f (String.split_on_char ',' s)
+
+let render_aval = function
+  | AvAddr (v6, port, ip) -> Printf.sprintf "addr:%d:%d:%s" (if v6 then 6 else 4) (int_of_n port) (hex_of_bytes ip)
+  | AvU16 x -> Printf.sprintf "u16:%d" (int_of_n x)
+  | AvU32 x -> Printf.sprintf "u32:%d" (int_of_n x)
+  | AvU64 x -> "u64:" ^ av_hex16_of_n x
+  | AvEmpty -> "empty"
+  | AvText s -> "text:" ^ hex_of_bytes s
+  | AvQuoted s -> "quoted:" ^ hex_of_bytes s
+  | AvUser s -> "user:" ^ hex_of_bytes s
+  | AvErr (c, r) -> Printf.sprintf "err:%d:%s" (int_of_n c) (hex_of_bytes r)
+  | AvAErr (f, c, r) -> Printf.sprintf "aerr:%d:%d:%s" (int_of_n f) (int_of_n c) (hex_of_bytes r)
+  | AvAlg (a, p) -> Printf.sprintf "alg:%d:%s" (int_of_n a) (av_tok_opt p)
+  | AvAlgs l -> "algs:" ^ av_list (fun (a, p) -> Printf.sprintf "%d.%s" (int_of_n a) (av_tok_opt p)) l
+  | AvUAttrs l -> "uattrs:" ^ av_list (fun t -> string_of_int (int_of_n t)) l
+  | AvFixed b -> "fixed:" ^ hex_of_bytes b
+  | AvOpaque b -> "opaque:" ^ hex_of_bytes b
+  | AvChan x -> Printf.sprintf "chan:%d" (int_of_n x)
+  | AvEven r -> if r then "even:1" else "even:0"
+  | AvProto p -> Printf.sprintf "proto:%d" (int_of_n p)
+  | AvFam f -> Printf.sprintf "fam:%d" (int_of_n f)
+  | AvIcmp (t, c, d) -> Printf.sprintf "icmp:%d:%d:%s" (int_of_n t) (int_of_n c) (hex_of_bytes d)
+  | AvMI r -> "mi:" ^ hex_of_bytes r
+  | AvMIEnc -> "mienc"
+  | AvSha r -> "sha:" ^ hex_of_bytes r
+  | AvShaEnc -> "shaenc"
+  | AvFp c -> Printf.sprintf "fp:%d" (int_of_n c)
+  | AvFpEnc -> "fpenc"
+  | AvUnknown (t, d) -> Printf.sprintf "unk:%d:%s" (int_of_n t) (av_tok_opt d)
+
+let parse_aval tok =
+  let num s = n_of_int (int_of_string s) in
+  match String.split_on_char ':' tok with
+  | ["addr"; f; port; ip] -> AvAddr (f = "6", num port, bytes_of_hex ip)
+  | ["u16"; x] -> AvU16 (num x)
+  | ["u32"; x] -> AvU32 (num x)
+  | ["u64"; x] -> AvU64 (av_n_of_hex16 x)
+  | ["empty"] -> AvEmpty
+  | ["text"; s] -> AvText (bytes_of_hex s)
+  | ["quoted"; s] -> AvQuoted (bytes_of_hex s)
+  | ["user"; s] -> AvUser (bytes_of_hex s)
+  | ["err"; c; r] -> AvErr (num c, bytes_of_hex r)
+  | ["aerr"; f; c; r] -> AvAErr (num f, num c, bytes_of_hex r)
+  | ["alg"; a; p] -> AvAlg (num a, av_parse_opt p)
+  | ["algs"; l] ->
+    AvAlgs (av_unlist (fun e -> match String.index_opt e '.' with
+        | Some i -> (num (String.sub e 0 i), av_parse_opt (String.sub e (i + 1) (String.length e - i - 1)))
+        | None -> failwith "algs entry") l)
+  | ["uattrs"; l] -> AvUAttrs (av_unlist num l)
+  | ["fixed"; b] -> AvFixed (bytes_of_hex b)
+  | ["opaque"; b] -> AvOpaque (bytes_of_hex b)
+  | ["chan"; x] -> AvChan (num x)
+  | ["even"; r] -> AvEven (r = "1")
+  | ["proto"; p] -> AvProto (num p)
+  | ["fam"; f] -> AvFam (num f)
+  | ["icmp"; t; c; d] -> AvIcmp (num t, num c, bytes_of_hex d)
+  | ["mi"; r] -> AvMI (bytes_of_hex r)
+  | ["mienc"] -> AvMIEnc
+  | ["sha"; r] -> AvSha (bytes_of_hex r)
+  | ["shaenc"] -> AvShaEnc
+  | ["fp"; c] -> AvFp (num c)
+  | ["fpenc"] -> AvFpEnc
+  | ["unk"; t; d] -> AvUnknown (num t, av_parse_opt d)
+  | _ -> failwith ("value token " ^ tok)
+
+let render_vres f = function
+  | VOk a -> "OK " ^ f a
+  | VErr -> "ERR"
+  | VPanic -> "PANIC"
+  | VUnmodelled -> "UNMODELLED"
+
+let attrval_suite () =
+  let idx = ref 0 in
+  let pending = ref None in
+  (try
+    while true do
+      let line = input_line stdin in
+      let n = String.length line in
+      if n > 2 && line.[0] = 'C' then begin
+        match split_sp line with
+        | [_; "D"; ud; txid; ty; v] ->
+          pending := Some (fun () ->
+              render_vres render_aval (av_case_dec (ud = "1") (bytes_of_hex txid) (n_of_int (int_of_string ty)) (bytes_of_hex v)))
+        | [_; "E"; txid; ty; tok; room] ->
+          pending := Some (fun () ->
+              render_vres hex_of_bytes
+                (av_case_enc (bytes_of_hex txid) (n_of_int (int_of_string ty)) (parse_aval tok) (n_of_int (int_of_string room))))
+        | _ -> failwith ("bad record: " ^ (if n > 200 then String.sub line 0 200 else line))
+      end else if n >= 2 && line.[0] = 'I' then begin
+        match !pending with
+        | None -> failwith "I without C"
+        | Some f ->
+          let i = !idx in incr idx;
+          emit (Printf.sprintf "M %d %s" i (f ()));
+          let nopanic = not (n >= 7 && String.sub line 2 5 = "PANIC") in
+          emit (Printf.sprintf "S %d %d C03val -" i (if nopanic then 1 else 0));
+          pending := None
+      end
+    done
+  with End_of_file -> ())
+
 let () =
   (match Sys.argv with
    | [| _; "filter" |] -> filter_suite ()
    | [| _; "reasm" |] -> reasm_suite ()
    | [| _; "agent" |] -> agent_suite ()
+   | [| _; "wire" |] -> wire_suite ()
+   | [| _; "attrval" |] -> attrval_suite ()
    | _ -> prerr_endline "usage: driver <suite> < cases"; exit 2);
   flush_out ()
